@@ -105,7 +105,13 @@ def norm_value(t, v):
       pure = t.split(':', 1)[0]
       cls = getattr(usertypes, {'Ref': 'Reference', 'RefList': 'ReferenceList'}.get(pure, pure))
       if not cls.is_right_type(v):
-        return str(v)
+        # ... and a looked-up text is converted by the column type (an Int column turns '0.0' into 0, a Ref
+        # column keeps it as text)
+        try:
+          w = (cls(t.split(':', 1)[1]) if ':' in t else cls()).convert(str(v))
+        except Exception:   # pylint: disable=broad-except
+          return str(v)
+        return str(w) if type(w).__name__ == 'AltText' else w
     except Exception:       # pylint: disable=broad-except
       pass
   return v
@@ -374,6 +380,7 @@ class Recorder(object):
     if not hasattr(engine.Engine, '_recompute_one_cell'):
       raise core.TieBroken('instrumentation point Engine._recompute_one_cell is gone')
     self.calls = []
+    self.ends = []           # per round: the source cells at the end of the round
     self.evals = []          # (index of the round, source table id, helper col id, row id)
     self.on = False
     rec = self
@@ -388,7 +395,13 @@ class Recorder(object):
           raise
         except Exception:      # pylint: disable=broad-except
           rec.calls.append({'error': traceback.format_exc()[-600:]})
-      return rec.orig(eng)
+      ret = rec.orig(eng)
+      if rec.on:
+        try:
+          rec.ends.append(rec.endsnap(eng))
+        except Exception:      # pylint: disable=broad-except
+          rec.ends.append({'error': traceback.format_exc()[-600:]})
+      return ret
 
     def _recompute_one_cell(eng, table, col, row_id, *args, **kwargs):
       if rec.on and col.col_id.startswith('#summary#'):
@@ -402,7 +415,7 @@ class Recorder(object):
     self.engine.Engine._recompute_one_cell = self.orig_cell
 
   def begin(self):
-    self.calls, self.evals, self.on = [], [], True
+    self.calls, self.evals, self.ends, self.on = [], [], [], True
 
   def summary_tables(self, eng):
     """Engine-side view: {summary table id: (source table id, group-by col ids, kinds)} exactly as
@@ -468,6 +481,17 @@ class Recorder(object):
       snap[sid] = {'src': src_id, 'gcols': gcols, 'kinds': kinds,
                    'rows': [(rid, self.key_of_row(t, gcols, rid)) for rid in sorted(t.row_ids)],
                    'prev': self.helper_entries(eng, sid, src_id)}
+    return snap
+
+  def endsnap(self, eng):
+    """At the end of a round: per summary table the source rows with the cells the helper formulas read."""
+    snap = {}
+    for sid, (src_id, gcols, kinds) in self.summary_tables(eng).items():
+      s = eng.tables[src_id]
+      conv = [eng.tables[sid].get_column(c) for c in gcols]
+      snap[sid] = {'src': src_id, 'gcols': gcols, 'kinds': kinds,
+                   'srows': [(rid, [preclassify(k, read_cell(s, c, rid), co, self.lookup)
+                                    for k, c, co in zip(kinds, gcols, conv)]) for rid in sorted(s.row_ids)]}
     return snap
 
   def postsnap(self, eng):
@@ -560,34 +584,50 @@ def conv_key(colobj, v, lookup_mod):
   return lookup_mod._extract(colobj._convert_raw_value(colobj.convert(v)))
 
 
-def classify(kind, v, colobj, intern, lookup_mod):
-  """Model cell for the rich value `v` the helper formula reads from a group-by column of the given kind."""
+def preclassify(kind, v, colobj, lookup_mod):
+  """First half of the cell mapping, done when the snapshot is taken (the summary column object `colobj` of that
+  moment converts the looked-up value): ('E',) | ('U',) | ('A', key object) | ('Q', [key objects]) |
+  ('SKIP', reason)."""
   if isinstance(v, (KeyError, CellError)):
     return ('E',)          # getattr(rec, col) raises: no such column in the source table, or an error value
-  if kind == 'S':
-    if isinstance(v, tuple):
-      raise SkipCase('tuple-in-scalar-column')      # domain of the known finding C12-tuple-key
-    k = conv_key(colobj, v, lookup_mod)
-    return ('A', atom(k, intern)) if hashable(k) else ('U',)
-  if isinstance(v, (bytes, str)):
-    return ('A', atom(v, intern))
   try:
-    elems = list(iter(v))
-  except TypeError:
-    return ('A', atom(v, intern)) if hashable(v) else ('U',)
-  if not all(hashable(x) for x in elems):
-    return ('U',)
-  ks = [conv_key(colobj, x, lookup_mod) for x in elems]
-  if not all(hashable(k) for k in ks):
-    raise SkipCase('element-converts-to-unhashable')
-  atoms = [atom(k, intern) for k in ks]
+    if kind == 'S':
+      if isinstance(v, tuple):
+        return ('SKIP', 'tuple-in-scalar-column')      # domain of the known finding C12-tuple-key
+      k = conv_key(colobj, v, lookup_mod)
+      return ('A', k) if hashable(k) else ('U',)
+    if isinstance(v, (bytes, str)):
+      return ('A', v)
+    try:
+      elems = list(iter(v))
+    except TypeError:
+      return ('A', v) if hashable(v) else ('U',)
+    if not all(hashable(x) for x in elems):
+      return ('U',)
+    ks = [conv_key(colobj, x, lookup_mod) for x in elems]
+    if not all(hashable(k) for k in ks):
+      return ('SKIP', 'element-converts-to-unhashable')
+    try:
+      raw_sorted = sorted(set(elems))
+    except TypeError:
+      return ('SKIP', 'elements-not-mutually-comparable')
+    return ('Q', ks, [conv_key(colobj, x, lookup_mod) for x in raw_sorted])
+  except Exception as ex:      # pylint: disable=broad-except
+    return ('SKIP', 'conversion-raises:%s' % type(ex).__name__)
+
+
+def classify(pre, intern):
+  """Second half: key objects -> atoms (one Interner per case).  Raises SkipCase."""
+  if pre[0] == 'SKIP':
+    raise SkipCase(pre[1])
+  if pre[0] in 'EU':
+    return pre
+  if pre[0] == 'A':
+    return ('A', atom(pre[1], intern))
+  atoms = [atom(k, intern) for k in pre[1]]
   # monitor: sorted() on the raw elements agrees with the model's order on the converted atoms, and set()
   # on the raw elements with the model's dedup
-  try:
-    raw_sorted = sorted(set(elems))
-  except TypeError:
-    raise SkipCase('elements-not-mutually-comparable')
-  via_raw = [atom(conv_key(colobj, x, lookup_mod), intern) for x in raw_sorted]
+  via_raw = [atom(k, intern) for k in pre[2]]
   dedup = []
   for a in atoms:
     if a not in dedup:
@@ -621,28 +661,33 @@ def cell_lit(c):
 KIND_LIT = {'S': 'KScalar', 'C': 'KChoiceList', 'R': 'KRefList'}
 
 
-def case_lit(kinds, dirties, prev, src, summ, expect):
-  """((kinds, helper lookup entries, src rows, summary rows before settle), summary rows after settle with groups)"""
+def case_lit(kinds, prev, rounds, expect):
+  """((kinds, helper lookup entries, rounds), summary rows after settle with groups)"""
+  def srows(src):
+    return core.coq_list(['(%s, %s)' % (core.zlit(rid), core.coq_list([cell_lit(c) for c in cells]))
+                          for rid, cells in src])
+  def mrows(summ):
+    return core.coq_list(['(%s, %s)' % (core.zlit(rid), core.coq_list([atom_lit(a) for a in key]))
+                          for rid, key in summ])
   p = core.coq_list(['(%s, %s)' % (core.zlit(rid), core.zlist(ids)) for rid, ids in prev])
-  d = core.coq_list([core.zlist(x) for x in dirties])
   k = core.coq_list([KIND_LIT[x] for x in kinds])
-  s = core.coq_list(['(%s, %s)' % (core.zlit(rid), core.coq_list([cell_lit(c) for c in cells])) for rid, cells in src])
-  m = core.coq_list(['(%s, %s)' % (core.zlit(rid), core.coq_list([atom_lit(a) for a in key])) for rid, key in summ])
+  r = core.coq_list(['(%s, %s, %s)' % (core.zlist(d), srows(src), mrows(start)) for d, src, start in rounds])
   x = core.coq_list(['(%s, %s, %s)' % (core.zlit(rid), core.coq_list([atom_lit(a) for a in key]), core.zlist(g))
                      for rid, key, g in expect])
-  return '((%s, %s, %s, %s, %s), %s)' % (k, d, p, s, m, x)
+  return '((%s, %s, %s), %s)' % (k, p, r, x)
 
 
 # ------------------------------------------------------------------------------------------------
 # Running histories
 
 def dirty_sets(ncalls, evals, sid, src_id):
-  """Per round of the settle loop: the sorted source row ids whose helper cell for `sid` was evaluated."""
-  out = [set() for _ in range(ncalls)]
+  """Per round of the settle loop: the source row ids whose helper cell for `sid` was evaluated, in the order of
+  evaluation (an immediate repetition counts once)."""
+  out = [[] for _ in range(ncalls)]
   for (rnd, tid, cid, rid) in evals:
-    if rnd >= 0 and tid == src_id and cid == '#summary#' + sid:
-      out[rnd].add(rid)
-  return [sorted(x) for x in out]
+    if rnd >= 0 and tid == src_id and cid == '#summary#' + sid and (not out[rnd] or out[rnd][-1] != rid):
+      out[rnd].append(rid)
+  return out
 
 
 def cases_of_step(st, lookup_mod):
@@ -654,42 +699,47 @@ def cases_of_step(st, lookup_mod):
   if 'error' in pre:
     raise core.TieBroken('snapshot before the settle loop failed: ' + pre['error'])
   for sid, post in sorted(st['post'].items()):
-    if sid not in pre:
+    if any('error' in c for c in st['calls'] + st['ends']):
+      raise core.TieBroken('snapshot of a round failed')
+    if any(sid not in c for c in st['calls']) or any(sid not in c for c in st['ends']) or \
+       len(st['ends']) != len(st['calls']):
       out.append((sid, None, 'table-appeared-during-settle'))
       continue
     try:
       d = dirty_sets(len(st['calls']), st['evals'], sid, post['src'])
-      out.append((sid, build_case(pre[sid], post, lookup_mod, d), None))
+      out.append((sid, build_case([c[sid] for c in st['calls']], [c[sid] for c in st['ends']], post, lookup_mod, d),
+                  None))
     except SkipCase as ex:
       out.append((sid, None, ex.args[0]))
   return out
 
 
-def build_case(pre, post, lookup_mod, dirties=None):
-  """Model input and expected output for one summary table and one bundle.  Raises SkipCase."""
-  if pre['gcols'] != post['gcols'] or pre['kinds'] != post['kinds'] or pre['src'] != post['src']:
-    raise SkipCase('group-by-changed-during-settle')
+def build_case(starts, ends, post, lookup_mod, dirties):
+  """Model input and expected output for one summary table and one bundle: per round of the settle loop the
+  re-evaluated helper cells, the source cells at the end of the round and the summary rows at its start.
+  Raises SkipCase."""
+  for snap in starts + ends:
+    if snap['gcols'] != post['gcols'] or snap['kinds'] != post['kinds'] or snap['src'] != post['src']:
+      raise SkipCase('group-by-changed-during-settle')
   if post.get('dangling'):
     raise SkipCase('group-by-column-refers-to-missing-table')
   intern = Interner()
   kinds = post['kinds']
-  src = []
-  for rid, vals in post['srows']:
-    src.append((rid, [classify(k, v, c, intern, lookup_mod) for k, v, c in zip(kinds, vals, post['conv'])]))
   def keyatoms(key):
     if not all(hashable(x) for x in key):
       raise SkipCase('summary-key-unhashable')
     return [atom(x, intern) for x in key]
-  summ = [(rid, keyatoms(key)) for rid, key in pre['rows']]
+  rounds = []
+  for d, st, en in zip(dirties, starts, ends):
+    src = [(rid, [classify(pre, intern) for pre in pres]) for rid, pres in en['srows']]
+    rounds.append((d, src, [(rid, keyatoms(key)) for rid, key in st['rows']]))
   expect = []
   for rid, key, g in post['rows']:
     if g is None:
       raise SkipCase('group-cell-not-a-list')
     expect.append((rid, keyatoms(key), g))
-  prev = sorted((rid, ids) for rid, ids in pre.get('prev', {}).items())
-  if dirties is None:
-    dirties = [[rid for rid, _ in src]] * 2
-  return kinds, dirties, prev, src, summ, expect
+  prev = sorted((rid, ids) for rid, ids in starts[0].get('prev', {}).items())
+  return kinds, prev, rounds, expect
 
 
 def run_history(seed, nb, direct=False, rec=None, undo_rate=0.15, script=None):
@@ -711,6 +761,7 @@ def run_history(seed, nb, direct=False, rec=None, undo_rate=0.15, script=None):
   else:
     gen, setup, total = None, [], len(script)
   last_undo = None
+  last_issues = []
   for step in range(total):
     if script is not None:
       bundle = script[step]
@@ -738,16 +789,24 @@ def run_history(seed, nb, direct=False, rec=None, undo_rate=0.15, script=None):
         rec.on = False
     if failed:
       g.clean(e)
-      yield {'history': copy.deepcopy(history), 'bundle': bundle, 'failed': failed, 'engine': e,
-             'issues': oracle(e), 'calls': [], 'evals': [], 'post': None, 'touched': [], 'undo': is_undo}
+      after = oracle(e)
+      # A failed bundle is rolled back: the summaries must be what they were.  If they are not, the failure
+      # left a trace (C04's subject, not a statement about successful bundles): the history ends here.
+      abandoned = sorted(after) != sorted(last_issues)
+      yield {'history': copy.deepcopy(history), 'bundle': bundle, 'failed': failed, 'engine': e, 'abandoned': abandoned,
+             'issues': [], 'calls': [], 'evals': [], 'ends': [], 'post': None, 'touched': [], 'undo': is_undo}
+      if abandoned:
+        return
       continue
     if gen is not None:
       gen.after_bundle(e)
     if not is_undo:
       last_undo = g.reprs(out.undo)
+    last_issues = oracle(e)
     yield {'history': copy.deepcopy(history), 'bundle': bundle, 'failed': None, 'engine': e,
-           'issues': oracle(e), 'calls': list(rec.calls) if rec is not None else [],
+           'issues': last_issues, 'calls': list(rec.calls) if rec is not None else [],
            'evals': list(rec.evals) if rec is not None else [],
+           'ends': list(rec.ends) if rec is not None else [],
            'post': rec.postsnap(e) if rec is not None else None, 'undo': is_undo,
            'touched': sorted(set(a[1] for a in g.reprs(out.stored) if len(a) > 1 and isinstance(a[1], str)))}
     history.append(bundle)
@@ -920,18 +979,25 @@ RULE = ('histories of user-action bundles on 1-3 tables (harness/histgen.py, sum
         'UpdateSummaryViewSection, Choice<->ChoiceList and Ref<->RefList type flips, updates aimed at group-by source '
         'cells incl. duplicate list elements, empty lists, strings in list-typed cells, True/1/1.0, renames, removal of '
         'source rows and columns, several summary tables of one source, undo of the previous bundle), a separate stream '
-        'with AddRecord directly on summary tables, and scripted scenarios; one case = one summary table after one '
+        'with AddRecord directly on summary tables, a stream with CHAINED summaries (Ref/RefList columns into a summary '
+        'table used as group-by of a second summary table, existing key-0 rows, edits that empty first-level groups so '
+        'that removals cascade over several rounds of the settle loop), and scripted scenarios; one case = one summary table after one '
         'successful bundle; non-trivial when the bundle touched the source or the summary table (stored actions)')
 TRUSTED = ['Model/Summary.v is hand-written; tied on every run: for every successful bundle and every summary table the '
            'summary rows before the settle loop, the entries of the helper column\'s lookup map, the helper cells the engine '
-           're-evaluated in each round, and the source cells are read from the running engine; the model (settle_trace, '
+           're-evaluated in each round, and the source cells are read from the running engine; the model (settle_rounds, '
            'vm_compute) must produce exactly the rows, keys, row ids and groups the engine ends with',
            'harness-side value mapping (classify/atom in harness/props/c12.py): Python values -> atoms modulo ==/hash, after '
            'the conversion Table.lookup_records applies (column.convert of the summary column, Record -> row id); monitored: '
            'set()/sorted() on the raw elements agree with the model\'s dedup/order on the atoms',
            'instrumentation points Engine._bring_all_up_to_date, Engine._recompute_one_cell, Table._summary_source_table/'
            '_summary_helper_col_id/_summary_simple, LookupMapColumn._mapping (harness-side wrappers)']
-ASSUMPTIONS = ['exactness (C12_settled_exact_partial) assumes that no helper formula raises (no_raise: every group-by cell '
+ASSUMPTIONS = ['the theorems are about one summary table with fixed source cells; with chained summary tables the auto-removal '
+               'of a first-level row rewrites (reference clean-up) source and key cells of the second level between two '
+               'rounds, so the engine needs one more round per level: that part is covered by the tie (settle_rounds replays '
+               'the recorded rounds with the cells of each round; C12_recorded_rounds_are_the_trace when nothing is '
+               'rewritten) and by the oracle after every bundle, not by C12_settle_terminates',
+               'exactness (C12_settled_exact_partial) assumes that no helper formula raises (no_raise: every group-by cell '
                'readable, scalar ones hashable); the two refuted statements are the known finding C12-helper-raises',
                'the model assumes a row added by the helper formula stores the key that was looked up (fails for tuples in a '
                'scalar column: known finding C12-tuple-key; such cases are skipped and counted) and that the group-by columns '
@@ -995,13 +1061,15 @@ def collect(ctx):
       try:
         for st in run_history(seed, nb, direct, rec, script=script):
           ctx.bump('bundles:%s:%s' % (stream, 'failed' if st['failed'] else ('undo' if st['undo'] else 'ok')))
+          if st.get('abandoned'):
+            ctx.bump('history-ended:summaries-changed-by-a-failed-bundle(C04)')
           for a in (st['bundle'] if not st['failed'] and not st['undo'] else []):
             ctx.bump('action:' + str(a[0]))
           for kind, what in st['issues']:
             if kind.startswith('SKIP:'):
               ctx.bump('oracle-skipped:' + kind[5:])
               continue
-            issues.append((kind, what + (' [state after a failed, rolled back bundle]' if st['failed'] else ''),
+            issues.append((kind, what,
                            {'history': st['history'], 'bundle': st['bundle'], 'kind': kind, 'seed': seed,
                             'stream': label}))
           try:
@@ -1034,7 +1102,12 @@ def correspond(ctx):
   cases, _issues = collect(ctx)
   lits = []
   for meta, case in cases:
-    kinds, dirties, prev, src, summ, expect = case
+    kinds, prev, rounds, expect = case
+    dirties, src, summ = [r[0] for r in rounds], rounds[-1][1], rounds[0][2]
+    key0 = dict((rid, key) for rid, key in rounds[0][2])
+    if any(r[1] != rounds[0][1] for r in rounds) or \
+       any(rid in key0 and key0[rid] != key for r in rounds[1:] for rid, key in r[2]):
+      ctx.bump('cells-rewritten-between-rounds')
     nontrivial = meta['touched'] or [r[:2] for r in expect] != [tuple(r) for r in summ]
     changed = [(r[0], r[1]) for r in expect] != [(r[0], r[1]) for r in summ]
     ctx.count((meta['stream'], meta['seed'], meta['nhistory'], meta['table']), nontrivial=bool(nontrivial),
@@ -1045,15 +1118,19 @@ def correspond(ctx):
       ctx.bump('rows-added-or-removed')
     if len(dirties) > 1:
       ctx.bump('settle-rounds>1')
+    if len(dirties) > 2:
+      ctx.bump('settle-rounds>2')
+    if any(d != sorted(set(d)) for d in dirties):
+      ctx.bump('evaluated-out-of-ascending-order')
     if any(c[0] in 'UE' for _rid, cells in src for c in cells):
       ctx.bump('with-raising-helper')
     lits.append(case_lit(*case))
   bad = ctx.run_cases('settle', ['Grist.Model.Summary'], 'check_case', lits, shard=300)
   for i in bad[:5]:
     meta, case = cases[i]
-    ctx.broken('correspondence:Model/Summary.v settle_trace differs from the engine',
+    ctx.broken('correspondence:Model/Summary.v settle_rounds differs from the engine',
                'table %s after bundle %r (stream %s seed %s, after %d bundles); model input %r'
-               % (meta['table'], meta['bundle'], meta['stream'], meta['seed'], meta['nhistory'], case[:5]))
+               % (meta['table'], meta['bundle'], meta['stream'], meta['seed'], meta['nhistory'], case[:3]))
   # how often does the engine's incremental evaluation differ from full re-evaluation (not an error: the
   # theorem C12_incremental_is_full has the hypothesis clean_valid)
   sub = list(range(len(lits))) if ctx.tier == 'thorough' else list(range(0, len(lits), 3))
